@@ -1,6 +1,7 @@
 \* pattern A: every abstract site of <= 4 entries in 2 disassemblies (entry types c/b, with and without entry
 \* points and mid-block comments, one #R or operand reference from an entry or a page), both path layouts, decimal and hex anchors,
 \* single-page on/off: the documented file set and link rule imply the C16 invariants.
+\* (#R references without explicit anchor here; with explicit anchors: Site_mca.cfg)
 SPECIFICATION Spec
 CONSTANTS
   MaxEntries = 4
@@ -9,6 +10,7 @@ CONSTANTS
   Pts = {0, 2}
   Layouts = {1, 2}
   AnchorKinds = {"d", "x"}
+  Ancs = {0}
   Deviation = "none"
 INVARIANT TypeOK
 INVARIANT WrittenOnce
